@@ -380,7 +380,7 @@ def check_replace(ctx, case, ev, eq):
         if has_target and ev["err"] is None:
             ctx.oracle_fail("replace", case, "a wrong replacement rule was accepted", eq)
         if ev["err"] is not None:
-            ok, why = oracles.kraus_equivalent(before, after, 2e-6 * (1 + len(after)))
+            ok, why = oracles.kraus_equivalent(ev.get("ref", before), after, 2e-6 * (1 + len(after)))
             if not ok:
                 ctx.oracle_fail("replace", case, "after the rejected rule the circuit is not equivalent to the original: " + why, eq)
         return
@@ -397,7 +397,7 @@ def check_replace(ctx, case, ev, eq):
     if any(getattr(s, "generator", None) is not None and s.generator.__name__ == target and id(s) in {id(x) for x in before} for s in after):
         ctx.oracle_fail("replace", case, "a gate with the requested name was left in place", eq)
         return
-    ok, why = oracles.kraus_equivalent(before, after, 2e-6 * (1 + len(after)))
+    ok, why = oracles.kraus_equivalent(ev.get("ref", before), after, 2e-6 * (1 + len(after)))
     if not ok:
         ctx.oracle_fail("replace", case, "replacement changed the operation: " + why, eq)
 
